@@ -240,6 +240,90 @@ pub enum ML {
     Nl,
 }
 
+// callbacks that bump and then skip (the scan position must be re-read after such a skip)
+fn blk<'s>(lex: &mut Lexer<'s, MK>) -> Skip {
+    let rest = lex.remainder();
+    let n = rest.find("*/").map(|i| i + 2).unwrap_or(rest.len());
+    lex.bump(n);
+    note(lex);
+    Skip
+}
+fn line<'s>(lex: &mut Lexer<'s, MK>) -> Filter<()> {
+    let rest = lex.remainder();
+    let n = rest.find('\n').unwrap_or(rest.len());
+    lex.bump(n);
+    note(lex);
+    Filter::Skip
+}
+
+/// block comments opened by a self-looping early-accept state, line comments opened by a keyword
+/// with a look-ahead (late accept): both callbacks bump and skip
+#[derive(Logos, Debug, Clone, PartialEq)]
+#[logos(extras = Log, error = MyErr)]
+pub enum MK {
+    #[regex(r"/\*+", blk)]
+    Blk,
+    #[regex(r"(?-u:rem\b)", line, priority = 20)]
+    Rem,
+    #[regex("[a-z]+", cb_val)]
+    W(usize),
+    #[token("=")]
+    Eq,
+    #[token(" ")]
+    Sp,
+    #[token("\n")]
+    Nl,
+    #[token("*")]
+    St,
+    #[token("/")]
+    Sl,
+}
+
+fn reference_mk(input: &str) -> (Vec<(String, usize, usize)>, Log) {
+    let b = input.as_bytes();
+    let word = |c: Option<&u8>| matches!(c, Some(b'0'..=b'9' | b'A'..=b'Z' | b'a'..=b'z' | b'_'));
+    let (mut items, mut log): (Vec<(String, usize, usize)>, Log) = (vec![], vec![]);
+    let mut p = 0;
+    while p < b.len() {
+        let rest = &b[p..];
+        if rest.starts_with(b"/*") {
+            let m = 1 + rest[1..].iter().take_while(|c| **c == b'*').count();
+            let tail = &input[p + m..];
+            let e = p + m + tail.find("*/").map(|i| i + 2).unwrap_or(tail.len());
+            log.push((p, e, input[p..e].to_string()));
+            p = e;
+        } else if rest.starts_with(b"rem") && !word(rest.get(3)) {
+            let tail = &input[p + 3..];
+            let e = p + 3 + tail.find('\n').unwrap_or(tail.len());
+            log.push((p, e, input[p..e].to_string()));
+            p = e;
+        } else if rest[0].is_ascii_lowercase() {
+            let n = rest.iter().take_while(|c| c.is_ascii_lowercase()).count();
+            log.push((p, p + n, input[p..p + n].to_string()));
+            items.push((format!("Ok(W({n}))"), p, p + n));
+            p += n;
+        } else {
+            let (name, n) = match rest[0] {
+                b'=' => ("Ok(Eq)", 1),
+                b' ' => ("Ok(Sp)", 1),
+                b'\n' => ("Ok(Nl)", 1),
+                b'*' => ("Ok(St)", 1),
+                b'/' => ("Ok(Sl)", 1),
+                _ => {
+                    let mut e = 1;
+                    while !input.is_char_boundary(p + e) {
+                        e += 1;
+                    }
+                    ("Err(Default)", e)
+                }
+            };
+            items.push((name.to_string(), p, p + n));
+            p += n;
+        }
+    }
+    (items, log)
+}
+
 fn reference_ml(input: &str) -> (Vec<(String, usize, usize)>, Log) {
     let b = input.as_bytes();
     let word = |c: Option<&u8>| matches!(c, Some(b'0'..=b'9' | b'A'..=b'Z' | b'a'..=b'z' | b'_'));
@@ -532,6 +616,11 @@ pub fn run(tier: &str, rep: &mut Report) {
     for s in ["let let\nend\nend", "let!let letx end", "!xXxX let !X\nend", "x!X!x end", "end\n\nend end\nlet", "letend", "endlet \n"] {
         check(rep, "ML", s, observe::<ML>(s), reference_ml(s), &mut digest);
     }
+    // callbacks that bump and skip
+    strings(&["/", "*", "r", "e", "m", "a", " ", "\n", "=", "é"], l + 2, &mut |s| check(rep, "MK", s, observe::<MK>(s), reference_mk(s), &mut digest));
+    for s in ["/*abc*/x", "/***/a/**/", "rem=abc\nz", "a rem x*/\nrem", "/* rem\n*/rem", "remx rem", "/*", "rem"] {
+        check(rep, "MK", s, observe::<MK>(s), reference_mk(s), &mut digest);
+    }
     // longer digit runs and bump runs
     for letter in "abcdefghijklmnopvwxyz".chars() {
         for n in 0..=5 {
@@ -607,6 +696,7 @@ pub fn replay(rec: &serde_json::Value, rep: &mut Report) {
         "M" => observe::<M>(input) != reference(input, Which::Named),
         "C" => observe::<C>(input) != reference(input, Which::Closures),
         "ML" => observe::<ML>(input) != reference_ml(input),
+        "MK" => observe::<MK>(input) != reference_mk(input),
         "MB" => observe_mb(input.as_bytes()) != reference_mb(input.as_bytes()),
         _ => observe::<M>(input).0 != observe::<Twin>(input).0,
     };
